@@ -1,12 +1,232 @@
-import Invoke.Lemmas.ParserTerm
-import Invoke.Lemmas.ParserWF
+import Invoke.Lemmas.ParserSituations
 import Invoke.Generated.Parser
-/-! # C07 — parsing is total, side-effect free and fails only with the documented parse error (WORK IN PROGRESS stub) -/
-namespace Inv
+/-! # C07 — parsing is total, side-effect free and fails only with the documented parse error
 
-/-- the insert-while-iterating loop of `parse_argv` terminates: with the fuel `parseArgv` supplies
-    (`t.length + 2`) the loop never runs out of fuel, whatever the machine state and the token -/
+Property theorems only; helper lemmas live in `Invoke/Lemmas/Parser{Term,WF,Total,Situations}.lean`.
+The model `parseArgv` (`Invoke/Model/Parser.lean`) is a pure function of (specification, argv), so the
+"side-effect free / repeatable" half of the property is trivial here (`parse_pure`); on the implementation it
+is validated metamorphically by `harness/props/c07.py` (fingerprints of argv / contexts / initial before and
+after, repeated parse, a different parse in between).
+
+`specWF` (decidable, `Lemmas/ParserWF.lean`) is the hypothesis "parser built from valid task signatures":
+counters have an integer default, list-type arguments hold lists, task contexts are named, the core `help`
+argument is not int-typed.  Error kinds of the model: "no-idea" (unknown token), "needed-value" (value flag left
+without a value), "missing-positional", "ambiguous" (token after an optional-value flag), and "invalid-value"
+(the cast `ValueError` of an int-typed argument, turned into `ParseError` by the fix for DESIGN §4 #6). -/
+namespace Inv
+open M
+
+/-! ## Termination -/
+
+/-- TERMINATION.  The insert-while-iterating loop of `parse_argv` terminates: with fuel above the token length
+    (parseArgv supplies `t.length + 2`) the loop never runs out of fuel, for EVERY machine state and token
+    (no well-formedness needed).  Out-of-fuel is `none`, not an error value. -/
 theorem no_fuel_exhaustion (n : Nat) (m : M) (t : Tok) (h : t.length < n) : (procTok' n m t).isSome = true :=
   procTok'_isSome n m t h
+
+/-- the executable `procTok` of the model computes exactly what the `Option`-fuel version answers -/
+theorem procTok_agrees (m : M) (t : Tok) :
+    ∃ r, procTok' (t.length + 2) m t = some r ∧ procTok (t.length + 2) m t = r := by
+  have h := no_fuel_exhaustion (t.length + 2) m t (by omega)
+  cases hr : procTok' (t.length + 2) m t with
+  | none => simp [hr] at h
+  | some r => exact ⟨r, rfl, procTok_eq _ m t r hr⟩
+
+/-- every token the loop inserts is strictly shorter than the token it was split from (the measure) -/
+theorem inserted_tokens_shorter (m : M) (orig : Tok) (p : Tok × List Tok) (h : presplit m orig = .ok p) :
+    ∀ t ∈ (rollback m orig p).2, t.length < orig.length :=
+  fun t ht => presplit_pieces_shorter m orig p h t (rollback_pieces m orig p t ht)
+
+/-! ## Totality: a result or the documented parse error, nothing else -/
+
+/-- TOTALITY.  For every well-formed parser specification (with or without an initial context, any
+    `ignore_unknown`) and EVERY token list, parsing returns a result or raises a `ParseError`. -/
+theorem parse_total (initial : Option Ctx) (registry : List Ctx) (ign : Bool) (argv : List Tok)
+    (hP : specWF initial registry = true) :
+    (∃ r, parseArgv initial registry ign argv = .ok r) ∨ (∃ k d, parseArgv initial registry ign argv = .error (.parse k d)) := by
+  rcases parseArgv_res initial registry ign argv hP with h | ⟨k, d, h, _⟩
+  · exact Or.inl h
+  · exact Or.inr ⟨k, d, h⟩
+
+/-- ONLY THE DOCUMENTED ERROR.  Whatever error comes out is a `ParseError` of one of the documented kinds;
+    in particular never `ValueError`/`KeyError`/`AttributeError`/`TypeError` (the `Err.other` sites of the model)
+    and never fuel exhaustion. -/
+theorem error_only_documented (initial : Option Ctx) (registry : List Ctx) (ign : Bool) (argv : List Tok)
+    (hP : specWF initial registry = true) (e : Err) (he : parseArgv initial registry ign argv = .error e) :
+    ∃ k d, e = .parse k d ∧ k ∈ ["no-idea", "needed-value", "missing-positional", "ambiguous", "invalid-value"] := by
+  rcases parseArgv_res initial registry ign argv hP with ⟨r, h⟩ | ⟨k, d, h, hk⟩
+  · rw [h] at he; cases he
+  · rw [h] at he; cases he; exact ⟨k, d, rfl, hk⟩
+
+/-- in particular the model never takes its out-of-fuel exit -/
+theorem parse_never_out_of_fuel (initial : Option Ctx) (registry : List Ctx) (ign : Bool) (argv : List Tok)
+    (hP : specWF initial registry = true) : parseArgv initial registry ign argv ≠ .error .fuel := by
+  intro h
+  obtain ⟨k, d, he, _⟩ := error_only_documented initial registry ign argv hP _ h
+  cases he
+
+/-- one step of the machine keeps the invariant or fails with a documented `ParseError` (the induction step) -/
+theorem handle_total (m : M) (tok : Tok) (h : MInv m) :
+    (∃ m', handle m tok = .ok m' ∧ MInv m') ∨ (∃ k d, handle m tok = .error (.parse k d) ∧ k ∈ docKinds) :=
+  handle_res m tok h
+
+/-- the `else` branch of `see_value` ("Flag doesn't take any value") is dead code: `handle` calls
+    `see_value` only while waiting for a value, and then the current flag takes one -/
+theorem see_value_else_unreachable (m : M) (v d : Tok) (hw : m.waiting = true) :
+    seeValue m v ≠ .error (.parse "takes-no-value" d) := by
+  obtain ⟨a, hfa, ht⟩ := waiting_spec m hw
+  unfold M.seeValue
+  rcases checkAmbiguity_res m v with h0 | h0
+  · simp only [h0, bind, Except.bind, hfa, ht, if_true]
+    cases hs : a.setValue (.s v) with
+    | ok a' => intro h; cases h
+    | error e =>
+      obtain ⟨c, s, rfl⟩ := Arg.setValue_err_other a (.s v) true e hs
+      split <;> (intro h; simp at h) <;> simp_all
+  · simp only [h0, bind, Except.bind]; intro h; simp at h
+
+/-- PURITY (model).  `parseArgv` is a function: the same specification and token list give the same answer,
+    whatever was parsed before.  (Trivial in the model; validated on the implementation by the harness.) -/
+theorem parse_pure (initial : Option Ctx) (registry : List Ctx) (ign : Bool) (argv argv' : List Tok) (h : argv = argv') :
+    parseArgv initial registry ign argv = parseArgv initial registry ign argv' := by rw [h]
+
+/-! ## It raises exactly in the documented situations -/
+
+/-- (a) UNKNOWN TOKEN.  A first token that is not flag-like, not a flag or inverse flag of the core context and not a
+    task name or alias is refused with "No idea what … is" — whatever follows. -/
+theorem error_unknown_first_token (initial : Option Ctx) (registry : List Ctx) (t : Tok) (rest : List Tok)
+    (hnf : isFlag t = false)
+    (hi : ∀ ic, initial = some ic → assoc? t ic.flags = none ∧ assoc? t ic.inverse = none ∧ ic.missingPositional = [])
+    (hr : registry.find? (fun c => c.name = some t || c.aliases.contains t) = none) :
+    parseArgv initial registry false (t :: rest) = .error (.parse "no-idea" t) :=
+  unknown_first_token initial registry t rest hnf hi hr
+
+/-- (b) VALUE FLAG LEFT WITHOUT A VALUE.  If, when the tokens before `--` are used up, the current flag takes a value,
+    has received none and its value is not optional, the parse fails with "needed value". -/
+theorem error_value_flag_last (initial : Option Ctx) (registry : List Ctx) (ign : Bool) (argv : List Tok) (m : M) (a : Arg)
+    (hrun : runBody initial registry ign (bodyOf argv) = .ok m)
+    (hfa : m.flagArg = some a) (ht : a.takesValue = true) (hr : a.raw = none) (ho : a.spec.optional = false) :
+    parseArgv initial registry ign argv = .error (.parse "needed-value" (a.spec.names.headD [])) :=
+  parseArgv_finish initial registry ign argv m _ hrun (finish_needed_value m a hfa ht hr ho)
+
+/-- (c) MISSING POSITIONALS.  If the command line ends while the current context still lacks positional arguments
+    (and no flag is pending), the parse fails with "did not receive required positional arguments". -/
+theorem error_missing_positionals (initial : Option Ctx) (registry : List Ctx) (ign : Bool) (argv : List Tok) (m : M) (c : Ctx)
+    (hrun : runBody initial registry ign (bodyOf argv) = .ok m)
+    (hfa : m.flagArg = none) (hc : m.ctx = some c) (hm : c.missingPositional ≠ []) :
+    parseArgv initial registry ign argv = .error (.parse "missing-positional" (c.name.getD [])) :=
+  parseArgv_finish initial registry ign argv m _ hrun (finish_missing_positional m c hfa hc hm)
+
+/-- (d) AMBIGUITY AFTER AN OPTIONAL-VALUE FLAG.  While an optional-value flag has not received a value, a token that is
+    not a flag of the context is refused as ambiguous when it names a task or when positionals are still unfilled. -/
+theorem error_ambiguous_after_optional (m : M) (c : Ctx) (a : Arg) (tok : Tok) (hst : m.st ≠ .unknown) (hc : m.ctx = some c)
+    (hf : assoc? tok c.flags = none) (hi : assoc? tok c.inverse = none)
+    (hfa : m.flagArg = some a) (ht : a.takesValue = true) (ho : a.spec.optional = true) (hr : a.raw = none)
+    (hamb : c.missingPositional ≠ [] ∨ (m.lookupCtx tok).isSome = true) :
+    handle m tok = .error (.parse "ambiguous" tok) :=
+  handle_ambiguous m c a tok hst hc hf hi hfa ht ho hr hamb
+
+/-! ## Non-vacuity and the situations on a concrete parser (evaluated by the kernel) -/
+
+def exCtx (name : Option Tok) (aliases : List Tok) (specs : List ArgSpec) : Ctx :=
+  match Ctx.ofSpecs name aliases specs with | .ok c => c | .error _ => Ctx.empty name aliases
+
+/-- core: `--help -h` (optional value), `--echo -e` (bool), `--command-timeout -T` (int) -/
+def exCore : Ctx := exCtx none []
+  [{ names := ["help".toList, "h".toList], optional := true },
+   { names := ["echo".toList, "e".toList], kind := .bool, default := .b false },
+   { names := ["command-timeout".toList, "T".toList], kind := .int }]
+
+/-- `def t(c, pos, name="n", flag=False, opt=None [optional], lst=[] [iterable], v=0 [incrementable])`, `def u(c)` -/
+def exReg : List Ctx :=
+  [exCtx (some "t".toList) ["tt".toList]
+     [{ names := ["pos".toList], positional := true },
+      { names := ["name".toList, "n".toList], default := .s "n".toList },
+      { names := ["flag".toList, "f".toList], kind := .bool, default := .b false },
+      { names := ["opt".toList, "o".toList], optional := true },
+      { names := ["lst".toList, "l".toList], kind := .list, default := .l [] },
+      { names := ["v".toList], kind := .int, default := .i 0, incrementable := true }],
+   exCtx (some "u".toList) [] [{ names := ["x".toList], default := .s [] }]]
+
+def exArgv (ws : List String) : List Tok := ws.map String.toList
+
+def errKind : Except Err PResult → Option String
+  | .error (.parse k _) => some k
+  | .error (.other c _) => some ("OTHER:" ++ c)
+  | .error .fuel => some "FUEL"
+  | .ok _ => none
+
+/-- the hypothesis of the totality theorems is satisfiable: this specification is well-formed … -/
+example : specWF (some exCore) exReg = true := by decide
+/-- … and so is a parser without an initial context -/
+example : specWF none exReg = true := by decide
+/-- a valid invocation parses (the theorems are not about a parser that always fails) -/
+example : errKind (parseArgv (some exCore) exReg false (exArgv ["-e", "t", "val", "--name", "x", "-f", "u"])) = none := by decide
+/-- (a) unknown first token -/
+example : errKind (parseArgv (some exCore) exReg false (exArgv ["nope", "t", "val"])) = some "no-idea" := by decide
+/-- (b) value flag as last token; also a list-type flag (fix for DESIGN §4 #8) -/
+example : errKind (parseArgv (some exCore) exReg false (exArgv ["t", "val", "--name"])) = some "needed-value" := by decide
+example : errKind (parseArgv (some exCore) exReg false (exArgv ["t", "val", "--lst"])) = some "needed-value" := by decide
+/-- (c) task with unfilled positionals -/
+example : errKind (parseArgv (some exCore) exReg false (exArgv ["t", "-f"])) = some "missing-positional" := by decide
+/-- (d) bare optional-value flag followed by a task name -/
+example : errKind (parseArgv (some exCore) exReg false (exArgv ["t", "val", "--opt", "u"])) = some "ambiguous" := by decide
+/-- cast failure is a ParseError (fix for DESIGN §4 #6), without an initial context nothing but ParseError either (#7) -/
+example : errKind (parseArgv (some exCore) exReg false (exArgv ["-T", "abc"])) = some "invalid-value" := by decide
+example : errKind (parseArgv none exReg false (exArgv ["-ab"])) = some "no-idea" := by decide
+/-- hypotheses of (a) on the concrete parser -/
+example : isFlag "nope".toList = false ∧ assoc? "nope".toList exCore.flags = none ∧ assoc? "nope".toList exCore.inverse = none ∧
+    exCore.missingPositional = [] ∧
+    exReg.find? (fun c => c.name = some "nope".toList || c.aliases.contains "nope".toList) = none := by decide
+/-- hypotheses of (b): after `t val --name` the machine has a pending non-optional value flag without a value -/
+def pendingNeedsValue : Except Err M → Bool
+  | .ok m => (match m.flagArg with | some a => a.takesValue && a.raw.isNone && !a.spec.optional | none => false)
+  | .error _ => false
+example : pendingNeedsValue (runBody (some exCore) exReg false (bodyOf (exArgv ["t", "val", "--name"]))) = true := by decide
+/-- hypotheses of (c): after `t` no flag is pending and the context lacks its positional -/
+def lacksPositional : Except Err M → Bool
+  | .ok m => m.flagArg.isNone && (match m.ctx with | some c => !c.missingPositional.isEmpty | none => false)
+  | .error _ => false
+example : lacksPositional (runBody (some exCore) exReg false (bodyOf (exArgv ["t"]))) = true := by decide
+/-- hypotheses of (d): after `t val --opt` an optional-value flag is pending, and `u` names a task -/
+def pendingOptional (tok : Tok) : Except Err M → Bool
+  | .ok m => (match m.flagArg, m.ctx with
+      | some a, some c => a.takesValue && a.spec.optional && a.raw.isNone && (assoc? tok c.flags).isNone &&
+          (assoc? tok c.inverse).isNone && (m.lookupCtx tok).isSome && !(m.st = .unknown)
+      | _, _ => false)
+  | .error _ => false
+example : pendingOptional "u".toList (runBody (some exCore) exReg false (bodyOf (exArgv ["t", "val", "--opt"]))) = true := by decide
+/-- no fuel exhaustion on a token that is split into many pieces -/
+example : (procTok' 9 { initial := some exCore, cur := none, registry := exReg, ignoreUnknown := false } "-eeeeee".toList).isSome = true :=
+  no_fuel_exhaustion 9 _ _ (by decide)
+
+/-! ## The pre-fix behaviour (DESIGN §4 #6) as a statement about a non-well-formed argument state:
+    outside `specWF` the model does reach a non-ParseError exit, so the hypothesis is not redundant. -/
+theorem not_wf_counterexample :
+    let bad : Ctx := exCtx (some "t".toList) [] [{ names := ["v".toList], kind := .str, default := .s "x".toList, incrementable := true }]
+    specWF none [bad] = false ∧
+    errKind (parseArgv none [bad] false (exArgv ["t", "-v"])) = some "OTHER:TypeError" := by decide
+
+/-! ## Tables regenerated from the repository on every run (`Invoke/Generated/Parser.lean`) -/
+
+/-- the model runs `complete_flag ; complete_context` (`M.enter`) on entering EVERY state and has no exit actions -/
+theorem machine_states_table :
+    Generated.machineInitial = "context" ∧
+    Generated.machineStates =
+      [("context", ["complete_flag", "complete_context"], []),
+       ("unknown", ["complete_flag", "complete_context"], []),
+       ("end", ["complete_flag", "complete_context"], [])] := by decide
+
+/-- the transitions the model implements (`finish`, `switchToContext`, `seeUnknown`), unguarded -/
+theorem machine_transitions_table :
+    Generated.machineTransitions =
+      [("finish", ["context", "unknown"], "end", [], []),
+       ("see_context", ["context"], "context", ["switch_to_context"], []),
+       ("see_unknown", ["context", "unknown"], "unknown", ["store_only"], [])] := by decide
+
+/-- the branch order of `M.handle`, observed on the real `Parser.parse_argv` by probing -/
+theorem handle_dispatch_table :
+    Generated.handleDispatch = ["flag", "inverse", "value", "positional", "context", "coreflag", "unknown"] ∧
+    ("coreflag", "positional") ∈ Generated.handleFacts ∧ ("flag", "coreflag") ∈ Generated.handleFacts := by decide
 
 end Inv
